@@ -5,7 +5,7 @@ from harness import cbuild
 from harness.core import REPO, VERIF, HarnessError
 
 
-def build(ctx):
+def build(ctx, fuzz=False):
     b = ctx.build
     shim = os.path.join(cbuild.CSHIM, "osmo")
     inc = ["-I", shim, "-I", os.path.join(REPO, "src/host/trxcon/include"),
@@ -15,8 +15,14 @@ def build(ctx):
     objs = [
         cbuild.compile_obj(os.path.join(REPO, "src/host/trxcon/src/trx_if.c"), os.path.join(b, "trx_if.o"), inc),
         cbuild.compile_obj(os.path.join(REPO, "src/shared/libosmocore/src/gsm/gsm_utils.c"), os.path.join(b, "gsm_utils.o"), old_inc),
-        cbuild.compile_obj(os.path.join(VERIF, "c", "drv_trxif.c"), os.path.join(b, "drv_trxif.o"), inc),
     ]
+    if fuzz:
+        # libFuzzer build of the same driver file (entry LLVMFuzzerTestOneInput); code under test gets coverage instrumentation
+        fz = ["-fsanitize=fuzzer-no-link"]
+        objs[0] = cbuild.compile_obj(os.path.join(REPO, "src/host/trxcon/src/trx_if.c"), os.path.join(b, "trx_if_fz.o"), inc + fz)
+        objs.append(cbuild.compile_obj(os.path.join(VERIF, "c", "drv_trxif.c"), os.path.join(b, "fuzz_trxif.o"), inc + fz + ["-DFUZZ_TARGET"]))
+        return cbuild.link(objs, os.path.join(b, "fuzz_trxif"), extra=["-fsanitize=fuzzer"])
+    objs.append(cbuild.compile_obj(os.path.join(VERIF, "c", "drv_trxif.c"), os.path.join(b, "drv_trxif.o"), inc))
     return cbuild.link(objs, os.path.join(b, "drv_trxif"))
 
 
